@@ -73,6 +73,8 @@ Common(r) == /\ TokLe(TokZero, r.b1) /\ TokLe(TokZero, r.b2)
              /\ TokEq(r.rt, TokMax(r.r1, r.r2))
              /\ TokLe(TokZero, r.r1) /\ TokLe(TokZero, r.r2)
              /\ r.iters <= r.T /\ r.iters >= 1
+             \* no bound is below zero, so with the threshold 0 (documented: "run exactly max_iter iterations") no run ends early
+             /\ (("thrhi" \in DOMAIN r /\ r.thrhi <= 0) => r.iters = r.T)
 
 C02(r) == /\ Max2(r.b1hi, r.b2hi) >= r.rtlo
           /\ (r.iters < r.T => r.rtlo < r.thrhi)
